@@ -579,6 +579,26 @@ def run_partB_search(case, ctx):
                 ctx.fail("specification-node", f"_get_specification_node raised {describe_exc(e)}", "specification-node/raises")
                 return
             check_tree(ctx, "specification-node", "_get_specification_node", node, icoll, iterative_root=irep[root] if iterative else None)
+            # A specification that is reported can also be handed back: turning the proof
+            # tree into rules (equivalence paths along recorded edges included) succeeds.
+            # The one documented limitation of the library on these universes - a union rule
+            # that merges statistics is stored as a two-way edge whose reverse is not an
+            # equivalence (DESIGN 9.4) - is counted, not judged.
+            from vf.scenario import requiet
+
+            try:
+                list(db.get_specification_rules(minimization_time_limit=0.05))
+                ctx.label("specification-rules-extracted")
+            except AssertionError as e:
+                if "EquivalenceRule can only be created for equivalence rules" in str(e):
+                    ctx.label("extraction-known-limitation")
+                    ctx.count("search_crashes:" + describe_exc(e)[:100])
+                else:
+                    ctx.fail("reported-not-extractable", f"has_specification() is True but get_specification_rules raised {describe_exc(e)}", f"reported-not-extractable/AssertionError/{describe_exc(e).split(' at ')[-1]}")
+            except Exception as e:
+                ctx.fail("reported-not-extractable", f"has_specification() is True but get_specification_rules raised {describe_exc(e)}", f"reported-not-extractable/{type(e).__name__}/{describe_exc(e).split(' at ')[-1]}")
+            finally:
+                requiet()
 
 
 def subchecks():
@@ -599,7 +619,7 @@ def subchecks():
             name="ruledb-searches",
             run_case=run_partB_search,
             strategy=lambda tier: gen.scenario(tier, dbs=["RuleDB", "RuleDB", "Forget"], allow_reverse_template=False),
-            examples={"quick": 1500, "thorough": 20000},
+            examples={"quick": 3000, "thorough": 20000},
             case_timeout=20.0,
         ),
         SubCheck(
